@@ -1,5 +1,67 @@
 package main
 
+import (
+	"encoding/json"
+	"time"
+
+	sp "github.com/scipipe/scipipe"
+)
+
+// parseRec reads: id proc cmd nparams (k v)* ntags (k v)* start finish neg exec nouts (k v)* nup (path rec)*
+func parseRec(k *toks) *sp.AuditInfo {
+	ai := sp.NewAuditInfo()
+	ai.ID = k.str()
+	ai.ProcessName = k.str()
+	ai.Command = k.str()
+	for _, kv := range k.pairs() {
+		ai.Params[kv[0]] = kv[1]
+	}
+	for _, kv := range k.pairs() {
+		ai.Tags[kv[0]] = kv[1]
+	}
+	st, err := time.Parse(time.RFC3339Nano, k.str())
+	if err != nil {
+		panic(err)
+	}
+	fi, err := time.Parse(time.RFC3339Nano, k.str())
+	if err != nil {
+		panic(err)
+	}
+	ai.StartTime, ai.FinishTime = st, fi
+	neg := k.int() == 1
+	n := k.int()
+	if neg {
+		n = -n
+	}
+	ai.ExecTimeNS = time.Duration(n)
+	for _, kv := range k.pairs() {
+		ai.OutFiles[kv[0]] = kv[1]
+	}
+	nup := k.int()
+	for i := 0; i < nup; i++ {
+		p := k.str()
+		ai.Upstream[p] = parseRec(k)
+	}
+	return ai
+}
+
 func evalLine2(sub string, k *toks) string {
+	switch sub {
+	case "json":
+		ai := parseRec(k)
+		b1, err := json.MarshalIndent(ai, "", "    ")
+		if err != nil {
+			return "<FAIL>"
+		}
+		back := sp.NewAuditInfo()
+		if err := json.Unmarshal(b1, back); err != nil {
+			return hx(string(b1)) + " UNMARSHAL-ERROR"
+		}
+		b2, _ := json.MarshalIndent(back, "", "    ")
+		if string(b1) == string(b2) {
+			return hx(string(b1)) + " RT"
+		}
+		return hx(string(b1)) + " DIFF"
+	}
 	panic("unknown subcommand " + sub)
 }
